@@ -187,7 +187,7 @@ def run(out):
         for k in ks[:2]:
             out.sample({'abbr': k[0], 'lines': list(k[1]), 'expected': [[e['d'], e['n'], e['title'], e['text']] for e in vecs[k]['out']]})
     # ---- grammar-level differential: tokenizer + parser + convert() of the specification against abbreviation.parse()
-    gq = dict(NameFr={"x", ""}, ModFr={"{t}", "{a>b+c}", "{aBS}b{c}d}", "{${1:p} q}", "{$# $$}", "{BSBS*[=]}", ".c", "{ sp }"}, RepFr={"*2", "*"},
+    gq = dict(NameFr={"x", ""}, ModFr={"{t}", "{a>b+c}", "{aBS}b{c}d}", "{${1:p} q}", "{$# $$}", "{BSBS*[=]}", ".c", "{ sp }", "{}"}, RepFr={"*2", "*"},
               OpFr={">", "+", "^"}, MaxGroups=1, MaxMods=2)
     grammar.differential(out, 'grammar-text', dict(gq, MaxFrag=5 if quick else 7), ('d', 'name', 'text'), 'text-verbatim (node tree of abbreviation.parse)')
 
